@@ -18,7 +18,9 @@ EXPLANATION = (
     "alphabet, same constant), datetime writes Item::Fixed(Fixed::RFC3339) and reads parse_from_rfc3339 then with_timezone(Utc), "
     "bearer token writes as_str() and reads through FromStr; (R12.4) every delegating Plain impl resolves to Display of its own Self "
     "and every delegating FromPlain to str::parse of its own Self; (R12.5) generated aliases delegate to the aliased type's impls "
-    "and wrap with their own constructor, generated enums' as_str / from_str tables are inverse.")
+    "and wrap with their own constructor, generated enums' as_str / from_str tables are inverse; (R12.6) the HTTP parameter "
+    "decoders hand the received text to from_plain unmodified (only item selection, HeaderValue::to_str and reference "
+    "conversions lie between the request and the parser: no trimming / case folding / replacing).")
 
 
 def run(ctx):
@@ -170,3 +172,31 @@ def run(ctx):
             ok = len(calls) == 1 and tystr(calls[0]["call"]["substs"][0]) == tystr(inner) and (wrap or wrap2)
             ctx.check(ok, "R12.5", b.loc(), f"{a}|fromplain", f"{a}: FromPlain must parse the aliased type {tystr(inner)} and wrap it in the alias; found {[tystr(t['call']['substs'][0]) for t in calls]}", instance=f"{a.split('::')[-1]}: FromPlain -> {tystr(inner)} -> alias")
     ctx.floor("R12.5", "generated alias PLAIN impls", na, 20)
+
+    # ---------------- R12.6 decoders parse the received text itself
+    ch = F.crate("conjure_http")
+    SELECT = {"only_item", "optional_item", "next", "to_str", "as_ref", "as_str", "into_iter", "iter", "map", "as_bytes", "deref", "borrow"}
+    nfp = 0
+    for b in ch.bodies:
+        for bb, t in b.calls():
+            if t["call"]["def"] != FROM_PLAIN + "::from_plain" or not t["args"]:
+                continue
+            nfp += 1
+            bad, work, seen = [], [t["args"][0]], set()
+            vt = dt.value_tracer(b)
+            while work:
+                op = work.pop()
+                roots, calls = dt.transforming_calls(b, op, vt)
+                for c_ in calls:
+                    if id(c_) in seen:
+                        continue
+                    seen.add(id(c_))
+                    if c_["call"]["name"] in SELECT:
+                        if c_["args"]:
+                            work.append(c_["args"][0])
+                    else:
+                        bad.append(c_["call"]["name"])
+            ctx.check(not bad, "R12.6", b.loc(t["ln"]), f"{b.path.split('::{closure')[0]}|from_plain|unmodified-input",
+                      f"{b.path}: the text handed to from_plain passes through {bad}: a parameter must be parsed from exactly the text that was sent (PLAIN strings may legitimately start or end with any character)",
+                      instance=f"{b.path.split('::')[-2] if '::' in b.path else b.path}: from_plain(received text)")
+    ctx.floor("R12.6", "from_plain calls in the HTTP parameter decoders", nfp, 5)
